@@ -60,7 +60,7 @@ Section Take.
     - destruct (ph s) eqn:Eph; try discriminate; destruct (residual s) eqn:Er; try discriminate;
         destruct (find j (works s)) as [[| | | |]|]; try discriminate; destruct stage as [|[|?]]; try discriminate; injection H as <-;
         same.
-    - destruct (ph s) eqn:Eph; try discriminate; destruct (find j (works s)) as [[| | | |]|]; try discriminate;
+    - destruct (ph s) eqn:Eph; try discriminate; try (destruct (residual s) eqn:Er; try discriminate); destruct (find j (works s)) as [[| | | |]|]; try discriminate;
         try (injection H as <-; same);
         destruct (c_term c); try discriminate; injection H as <-; same.
     - destruct (ph s) eqn:Eph; try discriminate. destruct (c_term c), r; try discriminate;
